@@ -48,6 +48,7 @@ class Run:
                         prefiltered_equal=0)
         self.nt_hashes = set()
         self.violations = []      # (case, why)
+        self.unreproduced = []
         self.known_hit = {}       # finding id -> count
         self.assumptions = []
         self.n_tlc = 0
@@ -312,11 +313,16 @@ class Run:
                 continue
             inp = json.loads(line_of(chunk, case)).get("input")
             n_repro += 1
-            ok, detail = self.reproduce(label, hmodule, inp, tmodule, cfg_tmpl, replay_args, env)
+            ok, detail = False, None
+            for attempt in range(3 if getattr(self, "nondeterministic", False) else 1):
+                ok, detail = self.reproduce(label, hmodule, inp, tmodule, cfg_tmpl, replay_args, env)
+                if ok:
+                    break
             if ok:
                 self.violation(label, inp, detail)
             else:
-                raise Infra("rejection of case %s in %s did not reproduce: %s" % (case, label, detail))
+                # not a verdict: remembered, turns the run into exit 2 unless a reproduced violation exists
+                self.unreproduced.append("rejection of case at line %s in %s did not reproduce: %s" % (case, label, str(detail)[:300]))
 
     def reproduce(self, label, hmodule, inp, tmodule, cfg_tmpl, replay_args=(), env=None):
         """Re-execute one case alone; True iff layer P rejects it again (verdict bad)."""
@@ -399,7 +405,11 @@ class Run:
         log("%s %s tier=%s seed=%d states=%d traces=%d wall=%.0fs" %
             (self.pid, "VIOLATED" if self.violations else "held", self.tier, self.seed, cov["states"],
              cov["traces_validated_against_impl"], time.time() - self.t0))
-        return 1 if self.violations else 0
+        if self.violations:
+            return 1
+        if self.unreproduced:
+            raise Infra("; ".join(self.unreproduced[:3]))
+        return 0
 
 
 # ---------------------------------------------------------------------- helpers
